@@ -88,11 +88,13 @@ ReadyT(i) ==
         /\ R.hsset => (R.hterm = r.hs.term /\ R.hvote = r.hs.vote /\ R.hcommit = r.hs.commit)
         /\ JSnap(R.snap) = r.snap
         /\ msgs \subseteq s.out
+        /\ {[ctx |-> R.reads[x].ctx, idx |-> R.reads[x].idx] : x \in 1..Len(R.reads)} \subseteq s.rs
         /\ R.nl = r.nl
         /\ st' = [st EXCEPT ![i] = s2]
-        /\ rdy' = [rdy EXCEPT ![i] = [r EXCEPT !.msgs = msgs, !.confs = ConfsOwed(s2, r)]]
+        /\ LET reads == {[ctx |-> R.reads[x].ctx, idx |-> R.reads[x].idx] : x \in 1..Len(R.reads)} IN
+           /\ rdy' = [rdy EXCEPT ![i] = [r EXCEPT !.msgs = msgs, !.reads = reads, !.confs = ConfsOwed(s2, r)]]
+           /\ bad' = bad \cup BadOfApp(s, r.hfrom, r.hto) \cup (IF StaleReads(s, reads) # {} THEN {"stale-read"} ELSE {})
         /\ gapp' = GappAfter(s, r.hfrom, r.hto)
-        /\ bad' = bad \cup BadOfApp(s, r.hfrom, r.hto)
         /\ PostOK(s2, P)
   /\ UNCHANGED <<dur, net, leaders, grants, gc, gct, gcq>>
 
@@ -138,6 +140,7 @@ TNext ==
        [] E.ev = "propose"     -> InputT(i, {ProposeRes(i, st[i], Ent(0, "n", E.a))})
        [] E.ev = "proposeconf" -> InputT(i, {ProposeRes(i, st[i], Ent(0, E.cc.k, E.cc.v))})
        [] E.ev = "transfer"    -> InputT(i, {TransferRes(i, st[i], E.a)})
+       [] E.ev = "readindex"   -> InputT(i, {ReadReqRes(i, st[i], E.a, 0)})
        [] E.ev = "reportsnap"  -> InputT(i, {})
        [] E.ev = "unreachable" -> InputT(i, {})
        [] E.ev = "ready"       -> ReadyT(i)
